@@ -544,6 +544,15 @@ func (fr *Frame) valueInstr(st *State, v ssa.Value) {
 				vc.sc.Axiom(Eq(sx("okind", sx("root", r)), "0"))
 			}
 			vc.assumeZero(st, r, et)
+			if typeKey(et) == "strings.Builder" {
+				// the zero strings.Builder holds no runes (ghost Sb_runes, specs/10_stdlib.spec)
+				key, sort := "G:Sb_runes", "(Array Ref Int)"
+				vc.memSorts[key] = sort
+				cur := vc.getMem(st, key, sort)
+				nm := vc.newMemVersion(key)
+				vc.sc.Def(Eq(nm, sx("store", cur, r, "0")))
+				st.mem[key] = nm
+			}
 			if typeKey(et) == "bytes.Buffer" {
 				// the zero bytes.Buffer is empty (ghost content used by the json model, json.go)
 				vc.memSorts[bufKey] = bufSort
